@@ -48,6 +48,25 @@ def handle (kind : String) (args : List String) (impl : String) : String :=
         | _ => [])))
       verdict impl m sp
     | none => "bad-op"
+  | "c17.pipe", [s] =>
+    -- the parent performs each requested step in the order requested and acknowledges it before it looks at the next
+    -- request — also when the child does not wait: a drain in progress is finished first
+    match (s.splitOn ",").mapM String.toNat? with
+    | some ts =>
+      let evs := ts.flatMap fun t => parentStep t
+      let acts := evs.flatMap fun e => match e with
+        | .act n => if n == "DrainListeners" then ["a:DrainListeners", "e:DrainListeners"] else [s!"a:{n}"]
+        | .reply _ => []
+      let reps := evs.filterMap fun e => match e with | .reply t => some s!"r:{t}" | .act _ => none
+      let dash (l : List String) := if l.isEmpty then "-" else ",".intercalate l
+      let m := s!"acts={dash acts} replies={dash reps}"
+      let spEvs := ts.flatMap specStep
+      let spActs := spEvs.flatMap fun e => match e with
+        | .act n => if n == "DrainListeners" then ["a:DrainListeners", "e:DrainListeners"] else [s!"a:{n}"]
+        | .reply _ => []
+      let spReps := spEvs.filterMap fun e => match e with | .reply t => some s!"r:{t}" | .act _ => none
+      verdict impl m s!"acts={dash spActs} replies={dash spReps}"
+    | none => "bad-op"
   | _, _ => "bad-op"
 
 end SamVerif.Drive.C17
